@@ -1,4 +1,5 @@
 """T-* rules: extraction of the six keyword tables from HIR and table-level laws."""
+import os
 import hir
 from hir import Unrecognised
 from facts import AnchorMissing
@@ -667,3 +668,41 @@ def rule_T_CROSS(ctx, T):
                         n += 1
                         ctx.ob("T-CROSS", "%s %s = %s %r" % (a, k, b, v), k in inv[v], "%s has %r under %s" % (b, v, inv[v]))
     ctx.floor("keywords shared between enum format tables", n, 1)
+
+
+# ----------------------------------------------------------------------------
+# T-TENSE: the tense marker of a temporal copula is the same in the implication and in the equivalence family
+def _marker(words):
+    """the part of each word that is left when the common prefix and the common suffix of all words are removed"""
+    ws = list(words)
+    pre = os.path.commonprefix(ws)
+    suf = os.path.commonprefix([w[::-1] for w in ws])[::-1]
+    out = []
+    for w in ws:
+        core = w[len(pre):]
+        if suf and core.endswith(suf) and len(core) >= len(suf):
+            core = core[:len(core) - len(suf)]
+        out.append(core)
+    return out
+
+
+def rule_T_TENSE(ctx, T):
+    """sibling analogy inside one vocabulary: predictive / concurrent / retrospective implication and equivalence are written with the same
+    tense marker (ASCII `/ | \\`, Han 将 现 曾, LaTeX `/ | \\backslash`), whatever the marker is.  The markers are READ from the table (common
+    prefix and suffix of the three copulas of a family removed), nothing is frozen (seed c10-v: predictive and retrospective equivalence
+    exchanged in the LaTeX table -- self-consistent for parser, fold and formatter, and no keyword is shared with another vocabulary)"""
+    ctx.rule("T-TENSE", "in every enum format table the three temporal implications and the three temporal equivalences carry the same tense "
+             "marker per tense (the marker is what distinguishes the three copulas of a family)")
+    tenses = ("predictive", "concurrent", "retrospective")
+    n = 0
+    for name, t in sorted(T.enum.items()):
+        st = t.get("statement", {}) if isinstance(t, dict) else {}
+        imp = [st.get("copula_implication_%s" % x) for x in tenses]
+        eqv = [st.get("copula_equivalence_%s" % x) for x in tenses]
+        if not all(isinstance(x, str) and x for x in imp + eqv):
+            raise AnchorMissing("temporal copulas of %s" % name)
+        mi, me = _marker(imp), _marker(eqv)
+        for x, a, b in zip(tenses, mi, me):
+            n += 1
+            ctx.ob("T-TENSE", "%s %s" % (name, x), a == b and len(set(mi)) == 3, "implication marker %r, equivalence marker %r (markers %s / %s)" % (a, b, mi, me))
+    ctx.floor("temporal copula pairs", n, 9)
